@@ -236,6 +236,39 @@ def scale(x, m: int):
     return None
 
 
+def scale_deep(x, m: int, depth: int = 0):
+    """The outermost repeatable containers nested in `x` (below any fixed positions: tuple
+    items, mapping values) scaled by `m`; fixed positions keep their count; containers
+    below a scaled one are left alone (no multiplicative blow-up)."""
+    if depth > 6 or m == 1:
+        return x
+    t = type(x)
+    f = lambda y: scale_deep(y, m, depth + 1)
+    try:
+        if t is tuple:
+            return tuple(f(y) for y in x)
+        if t is list:
+            return list(x) * m
+        if t is collections.deque:
+            return collections.deque(list(x) * m)
+        if t in (set, frozenset):
+            ys = list(x)
+            if ys and all(isinstance(y, int) and not isinstance(y, bool) for y in ys):
+                ys = ys + [max(ys) + 1 + i for i in range(len(ys) * (m - 1))]
+            return t(ys)
+        if t is dict:
+            if x and all(isinstance(k, str) for k in x):
+                d = dict(x)
+                v0 = next(iter(d.values()))
+                for i in range(len(d) * (m - 1)):
+                    d[f'zz{i}'] = v0
+                return d
+            return {f(k): f(v) for k, v in x.items()}
+    except TypeError:
+        return x
+    return x
+
+
 def run(ck, n_hints: int, seed: int, focus: str, depth: int = 3, exhaustive_depth: int = 1, per_hint: int = 4) -> Explore:
     """focus in {'C01','C02','C03','C09','C10','C12'} selects which oracles produce Failures."""
     real.install_draw_control()
@@ -281,13 +314,22 @@ def run(ck, n_hints: int, seed: int, focus: str, depth: int = 3, exhaustive_dept
             x = og.make(h)
             if j % 2 == 1:
                 x = og.mutate(x)
-            try:
-                om = obj_model(x, reg)
-            except Exception:
-                continue
-            for cn in ('default', 'nonrandom'):
-                cases.append((cn != 'nonrandom', DRAWS if cn == 'default' else DRAWS[:2], hm, om))
-                meta.append((h, x, cn))
+            variants = [x]
+            if j == 1:       # the same content with a truth value decoupled from its length
+                if type(x) is tuple:
+                    variants += [gen.FalsyTuple(x), gen.FalsyTuple(x + (0,))]
+                elif type(x) is dict and x:
+                    variants.append(gen.FalsyDict(x))
+                elif type(x) is list and x:
+                    variants.append(gen.FalsyList(x))
+            for x in variants:
+                try:
+                    om = obj_model(x, reg)
+                except Exception:
+                    continue
+                for cn in ('default', 'nonrandom'):
+                    cases.append((cn != 'nonrandom', DRAWS if cn == 'default' else DRAWS[:2], hm, om))
+                    meta.append((h, x, cn))
     res = corr.model_run(cases, reg)
     seen_shapes = set()
     verdict_split = collections.Counter()
@@ -370,6 +412,25 @@ def run(ck, n_hints: int, seed: int, focus: str, depth: int = 3, exhaustive_dept
     return ex
 
 
+def perturb_last(x, depth=0):
+    """Replace the LAST fixed position (last tuple item / last mapping value / the only item of a
+    singleton) by a foreign object, leaving everything visited before it conforming."""
+    foreign = 2.5 + 1j
+    if depth > 4:
+        return foreign
+    t = type(x)
+    if t is tuple and x:
+        return x[:-1] + (perturb_last(x[-1], depth + 1),)
+    if t is dict and x:
+        d = dict(x)
+        k = list(d)[-1]
+        d[k] = perturb_last(d[k], depth + 1)
+        return d
+    if t is list and len(x) == 1:
+        return [perturb_last(x[0], depth + 1)]
+    return foreign
+
+
 def cost_oracle(ex, usable, og, reg, cs, fail):
     """Measured item reads on instrumented containers: equal to the model's cost on the
     deciding path, bounded and size-independent on the rejecting path that builds the violation."""
@@ -378,10 +439,12 @@ def cost_oracle(ex, usable, og, reg, cs, fail):
     sweep = collections.Counter()
     todo, meta = [], []
     for h, hm in usable:
-        for j in range(2):
+        for j in range(3):
             x = og.make(h)
-            if j:
+            if j == 1:
                 x = og.mutate(x)
+            elif j == 2:
+                x = perturb_last(x)     # a violation AFTER conforming containers: the explainer must not walk them
             xi = instrument(x)
             try:
                 om = obj_model(xi, reg)      # iteration order of the instrumented copy is what is measured
@@ -410,30 +473,35 @@ def cost_oracle(ex, usable, og, reg, cs, fail):
             else:   # containers that cannot be instrumented (views, str, user classes) are read unobserved
                 sweep['fewer_reads_than_model_uninstrumented'] += 1
         # size sweep (accepting and rejecting path incl. the violation message)
-        base = []
-        for m in (1, 40, 1500):
-            xs = scale(x, m)
-            if xs is None:
-                break
-            xsi = instrument(xs)
-            Spy.counts.clear()
-            try:
-                is_bearable(xsi, h, conf=conf)
-            except Exception:
-                break
-            a = item_reads()
-            Spy.counts.clear()
-            try:
-                die_if_unbearable(xsi, h, conf=conf)
-            except Exception:
-                pass
-            b = item_reads()
-            base.append((m, a, b))
-        if len(base) == 3:
-            sweep['swept'] += 1
-            if max(a for _, a, _ in base) > base[0][1] or max(b for _, _, b in base) > base[0][2]:
-                fail(f'C09:grows-with-size:{shape(hm)}', f'items read grow with container size for {h!r:.160}: (repeat factor, reads deciding, reads incl. violation message) = {base}',
-                     {**rp, 'sweep': base})
+        for scaler, cname in ((scale, 'nonrandom'), (scale_deep, 'default'), (scale_deep, 'nonrandom')):
+            base = []
+            for m in (1, 40, 1500):
+                xs = scaler(x, m)
+                if xs is None:
+                    break
+                xsi = instrument(xs)
+                real.DRAW[0] = 0
+                Spy.counts.clear()
+                try:
+                    is_bearable(xsi, h, conf=cs[cname])
+                except Exception:
+                    break
+                a = item_reads()
+                real.DRAW[0] = 0
+                Spy.counts.clear()
+                try:
+                    die_if_unbearable(xsi, h, conf=cs[cname])
+                except Exception:
+                    pass
+                b = item_reads()
+                base.append((m, a, b))
+            if len(base) == 3:
+                sweep['swept'] += 1
+                # growth between the two LARGE sizes (the smallest size may differ by a constant: another
+                # iteration order, a culprit met one item later) — anything linear shows between 40 and 1500
+                if base[2][1] > base[1][1] or base[2][2] > base[1][2]:
+                    fail(f'C09:grows-with-size:{shape(hm)}', f'items read grow with container size for {h!r:.160} ({cname} conf, {scaler.__name__}): '
+                         f'(repeat factor, reads deciding, reads incl. violation message) = {base}', {**rp, 'sweep': base, 'conf': cname})
     ex.extra['cost_cases'] = n
     ex.extra['size_sweeps'] = dict(sweep)
     ex.evaluations += n
